@@ -35,6 +35,8 @@ from typing import Any, Dict, List, Optional
 VERIF_DIR = os.path.dirname(os.path.dirname(os.path.abspath(__file__)))
 REPO_DIR = os.environ.get("PW_REPO", "/repo")
 KNOWN_FILE = os.path.join(VERIF_DIR, "known_findings.json")
+# evidence / replay files of experimental runs (mutants) can be redirected; registered commands never set this
+OUT_DIR = os.environ.get("PW_VERIF_OUT", VERIF_DIR)
 NPROC = int(os.environ.get("PW_VERIF_NPROC", "16"))
 
 
@@ -372,7 +374,7 @@ def write_evidence(prop, tier, seed, level, coverage, assumptions, wall, violati
     for k in ("evaluations", "distinct_nontrivial", "rule", "samples"):
         assert k in cov, k
     assert isinstance(cov["samples"], list)
-    path = os.path.join(VERIF_DIR, "evidence", f"{prop}.json")
+    path = os.path.join(OUT_DIR, "evidence", f"{prop}.json")
     os.makedirs(os.path.dirname(path), exist_ok=True)
     tmp = path + ".tmp"
     with open(tmp, "w") as f:
@@ -468,12 +470,12 @@ def main(argv=None) -> int:
 
     replay_paths = []
     for b, fl in sorted(failures.items()):
-        d = os.path.join(VERIF_DIR, "replays", prop)
+        d = os.path.join(OUT_DIR, "replays", prop)
         os.makedirs(d, exist_ok=True)
         p = os.path.join(d, case_hash(fl["case"]) + ".json")
         with open(p, "w") as f:
             json.dump(dict(property=prop, bucket=b, message=fl["message"], oracle=fl["oracle"], site=fl["site"], case=fl["case"]), f, indent=1, default=str)
-        replay_paths.append((os.path.relpath(p, VERIF_DIR), fl))
+        replay_paths.append((os.path.relpath(p, OUT_DIR), fl))
 
     wall = time.time() - t0
     coverage = dict(
